@@ -1,4 +1,4 @@
-CONSTANTS W = 2 Target = 1 Epochs = 1 KeepSender = FALSE JoinUnwrap = FALSE Faults <- AllFaults QMax = 2 Outcomes <- OutAll BchThreshold = 2 RQMax = 2 BoundedSend = FALSE MaxFrames = 4
+CONSTANTS W = 2 Target = 1 Epochs = 1 KeepSender = FALSE JoinUnwrap = FALSE Faults <- AllFaults QMax = 2 Outcomes <- OutBch BchThreshold = 2 RQMax = 2 BoundedSend = FALSE MaxFrames = 4
 SPECIFICATION Spec
 VIEW View
 CONSTRAINT FrameBound
